@@ -467,6 +467,13 @@ pub fn run(p: &Params) -> Report {
         let mut history = vec![];
         let v = session(&mut rng, s, &cx, &mut rep, &mut history);
         rep.inc("evaluations");
+        for (class, blk) in s.stderr_sanitizer_reports() {
+            if class.ends_with("without-repo-frame") {
+                rep.note(format!("sanitizer report in the server without a frame in /repo/src: {}", blk.lines().next().unwrap_or("")));
+            } else {
+                rep.violation(&class, blk.chars().take(1500).collect(), json!({"kind":"c15","history": history}));
+            }
+        }
         if let Some((class, detail)) = v {
             rep.violation(&class, detail, json!({"kind":"c15","history": history}));
             // restart the server after a violation (its state is unknown)
